@@ -76,10 +76,18 @@ func (fg *FnGen) step(fr *Frame, b *ssa.BasicBlock, ins ssa.Instruction, st *Sta
 		fr.vals[x] = ref
 		elem := x.Type().Underlying().(*types.Pointer).Elem()
 		fg.freshSubObjects(ref, elem, 0)
-		if !x.Heap && fr.top && !fg.noDefs {
+		if (!x.Heap || capturedReadOnly(x)) && fr.top && !fg.noDefs {
 			fg.stackCells = append(fg.stackCells, stackCell{ref: ref, ty: elem})
 		}
 		fg.storeValue(st, ref, elem, ti.zeroOf(elem))
+		if fr.top && x.Comment != "" && !strings.ContainsAny(x.Comment, " .[]()") {
+			switch x.Comment {
+			case "slicelit", "varargs", "complit", "makeslice", "new", "arrayliteral", "rangelit":
+			default:
+				// the cell of a captured / address-taken local variable (go/ssa records the variable's name on the Alloc)
+				fr.noteLocal(b, "&"+x.Comment, ref, x.Type())
+			}
+		}
 		if stt, ok := elem.Underlying().(*types.Struct); ok && ti.structName(elem, stt) == "strings.Builder" {
 			fg.set(st, sbVar, sbSort, Store(fg.lookup(st, sbVar, sbSort), ref, StrLit("")))
 		}
@@ -238,6 +246,14 @@ func (fg *FnGen) step(fr *Frame, b *ssa.BasicBlock, ins ssa.Instruction, st *Sta
 		c := fg.freshConst(fr.prefix+"closure_"+x.Name(), SInt)
 		fg.assume(Gt(c, IntLit(0)))
 		fr.vals[x] = c
+		// identity of the closure: which function literal it is and what it captured (closureOf / closureBinds in contracts)
+		if cf, ok := x.Fn.(*ssa.Function); ok && !fg.noDefs {
+			fg.assume(Eq(App("closureFn", SString, c), StrLit(shortDesc(cf.String()))))
+			for i, b := range x.Bindings {
+				v := fg.val(fr, b)
+				fg.assume(Eq(App(fmt.Sprintf("closureBind%d_%s", i, sanitize(v.Sort)), v.Sort, c), v))
+			}
+		}
 		return st
 	case *ssa.MakeChan:
 		c := fg.freshConst(fr.prefix+"chan_"+x.Name(), SInt)
@@ -985,4 +1001,75 @@ func (fg *FnGen) typeAssert(fr *Frame, x *ssa.TypeAssert, st *State, reach *Term
 		fr.vals[x] = res
 	}
 	return st
+}
+
+// capturedReadOnly: a heap-allocated local whose address is only used by loads and stores of the allocating function
+// and by closures that only load through it: no callee can change its content.
+func capturedReadOnly(a *ssa.Alloc) bool {
+	refs := a.Referrers()
+	if refs == nil {
+		return false
+	}
+	for _, r := range *refs {
+		switch u := r.(type) {
+		case *ssa.Store:
+			if u.Addr != a {
+				return false // the address itself is stored somewhere
+			}
+		case *ssa.UnOp, *ssa.DebugRef:
+		case *ssa.MakeClosure:
+			cf, ok := u.Fn.(*ssa.Function)
+			if !ok {
+				return false
+			}
+			for i, b := range u.Bindings {
+				if b != a {
+					continue
+				}
+				if i >= len(cf.FreeVars) {
+					return false
+				}
+				fr := cf.FreeVars[i].Referrers()
+				if fr == nil {
+					return false
+				}
+				for _, rr := range *fr {
+					switch rr.(type) {
+					case *ssa.UnOp, *ssa.DebugRef:
+					default:
+						return false
+					}
+				}
+			}
+		default:
+			return false
+		}
+	}
+	return true
+}
+
+// freeVarReadOnly: every closure creation site of fn binds its i-th free variable to a captured-read-only cell.
+func freeVarReadOnly(fn *ssa.Function, i int) bool {
+	parent := fn.Parent()
+	if parent == nil {
+		return false
+	}
+	found := false
+	for _, b := range parent.Blocks {
+		for _, ins := range b.Instrs {
+			mc, ok := ins.(*ssa.MakeClosure)
+			if !ok || mc.Fn != fn {
+				continue
+			}
+			if i >= len(mc.Bindings) {
+				return false
+			}
+			a, ok := mc.Bindings[i].(*ssa.Alloc)
+			if !ok || !capturedReadOnly(a) {
+				return false
+			}
+			found = true
+		}
+	}
+	return found
 }
